@@ -16,6 +16,7 @@ const (
 	sBool
 	sReal
 	sStr
+	sRegLan
 )
 
 func (s smtSort) String() string {
@@ -28,6 +29,8 @@ func (s smtSort) String() string {
 		return "Real"
 	case sStr:
 		return "String"
+	case sRegLan:
+		return "RegLan"
 	}
 	return "?"
 }
